@@ -13,6 +13,8 @@ from harness.common import cbytes, cbool, clist, cpair, cstr
 
 PID = "C17"
 KEY_APS_DATA = "aps-data-request-secured-raises"
+KEY_NOEXT = "no-extended-nonce-source-from-payload"
+IN_SCOPE = (0, 1, 2, 3, 5, 6, 7)      # integrity-providing levels: 5..7 and on-air 0 (the quantifier) + the MIC-only levels 1..3 (extension)
 M_OF = {0: 4, 1: 4, 2: 8, 3: 16, 4: 0, 5: 4, 6: 8, 7: 16}
 SPLIT_OF = {0: 0, 1: 4, 2: 8, 3: 16, 4: 0, 5: 4, 6: 8, 7: 16}   # scapy util_mic_len
 SVC = {"data": 0, "management": 1, "interpan": 2}
@@ -69,15 +71,16 @@ def aps_hdr(rng, kind):
 
 class Fr:
     """Python-side secured frame: lower part (not protected), base header, security header fields."""
-    def __init__(self, mgr, low, pre, res, kt, lvl, fc, src, kseq, data, mic):
+    def __init__(self, mgr, low, pre, res, kt, lvl, fc, src, kseq, data, mic, ext=1):
         self.mgr, self.low, self.pre, self.res, self.kt, self.lvl = mgr, low, pre, res, kt, lvl
-        self.fc, self.src, self.kseq, self.data, self.mic = fc, src, kseq, data, mic
+        self.fc, self.src, self.kseq, self.data, self.mic, self.ext = fc, src, kseq, data, mic, ext
 
     def ctrl(self):
-        return self.lvl | (self.kt << 3) | 0x20 | (self.res << 6)
+        return self.lvl | (self.kt << 3) | (0x20 if self.ext else 0) | (self.res << 6)
 
     def sec_fixed(self):
-        return bytes([self.ctrl()]) + self.fc.to_bytes(4, "little") + self.src + (bytes([self.kseq]) if self.kt == 1 else b"")
+        return (bytes([self.ctrl()]) + self.fc.to_bytes(4, "little") + (self.src if self.ext else b"")
+                + (bytes([self.kseq]) if self.kt == 1 else b""))
 
     def hdr(self):
         return self.pre + self.sec_fixed()
@@ -89,20 +92,20 @@ class Fr:
         return self.low + self.base()
 
     def asdict(self):
-        return {"pre": self.pre.hex(), "res": self.res, "ext": 1, "kt": self.kt, "lvl": self.lvl, "fc": self.fc,
-                "src": self.src.hex(), "kseq": self.kseq if self.kt == 1 else None,
+        return {"pre": self.pre.hex(), "res": self.res, "ext": self.ext, "kt": self.kt, "lvl": self.lvl, "fc": self.fc,
+                "src": self.src.hex() if self.ext else None, "kseq": self.kseq if self.kt == 1 else None,
                 "data": self.data.hex(), "mic": self.mic.hex()}
 
 
 def coq_frame(d):
-    return "(mkFrame %s %d %d %d %d %s %d %s %s)" % (
-        cbytes(bytes.fromhex(d["pre"])), d["res"], d["kt"], d["lvl"], d["fc"], cbytes(bytes.fromhex(d["src"])),
+    return "(mkFrame %s %d %d %d %d %s %s %d %s %s)" % (
+        cbytes(bytes.fromhex(d["pre"])), d["res"], d["kt"], d["lvl"], d["fc"], cbool(bool(d["ext"])), cbytes(bytes.fromhex(d["src"] or "")),
         d["kseq"] if d["kseq"] is not None else 0, cbytes(bytes.fromhex(d["data"])), cbytes(bytes.fromhex(d["mic"])))
 
 
 def in_model(d):
-    """The dissection is inside the model: security header with extended nonce, nothing after mic."""
-    return (d is not None and not d.get("nosec") and d.get("ext") == 1 and d.get("tail", "") == "" and d.get("src") is not None
+    """The dissection is inside the model: a security header directly above the base layer, nothing after mic."""
+    return (d is not None and not d.get("nosec") and d.get("tail", "") == "" and ((d.get("src") is not None) == (d.get("ext") == 1))
             and ((d["kseq"] is not None) == (d["kt"] == 1)))
 
 
@@ -129,8 +132,8 @@ def gen_payload(rng, hdr, n=None, kind=None):
     return rb(rng, n), "random"
 
 
-def gen_secured(rng, mgr, lvl=None, n=None, pkind=None, kt=None, ft=None, fc=None, src=None, kseq=None, rich=True):
-    lvl = rng.choice([0, 0, 5, 5, 6, 7]) if lvl is None else lvl
+def gen_secured(rng, mgr, lvl=None, n=None, pkind=None, kt=None, ft=None, fc=None, src=None, kseq=None, rich=True, ext=1):
+    lvl = rng.choice([0, 0, 5, 5, 6, 7, 1, 2, 3]) if lvl is None else lvl
     if mgr == "nwk":
         low = mac_hdr(rng)
         pre = nwk_hdr(rng, rng.choice([0, 0, 1]) if ft is None else ft, True, rich)
@@ -141,7 +144,7 @@ def gen_secured(rng, mgr, lvl=None, n=None, pkind=None, kt=None, ft=None, fc=Non
         pre = aps_hdr(rng, "data" if kt in (0, 1) and rng.random() < 0.7 else "command")
     f = Fr(mgr, low, pre, rng.choice([0, 0, 0, 1, 2, 3]) if rich else 0, kt, lvl,
            fc if fc is not None else rng.choice([0, 1, 0xFFFFFFFF, 0xFFFFFFFE, rng.randrange(1 << 32), rng.randrange(1 << 16)]),
-           src if src is not None else rb(rng, 8), kseq if kseq is not None else rng.randrange(256), b"", b"")
+           src if src is not None else rb(rng, 8), kseq if kseq is not None else rng.randrange(256), b"", b"", ext)
     pl, pk = gen_payload(rng, f.hdr(), n, pkind)
     f.payload, f.pkind = pl, pk
     return f
@@ -172,13 +175,13 @@ def gen_roundtrip_cases(ctx):
     def add(f, key, inp, conv, dec_via, tag):
         M = M_OF[f.lvl]
         if conv == "bytes":       # frame bytes as dissected: payload followed by M placeholder bytes
-            g = Fr(f.mgr, f.low, f.pre, f.res, f.kt, f.lvl, f.fc, f.src, f.kseq, f.payload + rb(rng, M), b"")
+            g = Fr(f.mgr, f.low, f.pre, f.res, f.kt, f.lvl, f.fc, f.src, f.kseq, f.payload + rb(rng, M), b"", f.ext)
             frame, setf, via = g.frame().hex(), None, "bytes"
             all_ = g.data
             k = SPLIT_OF[f.lvl]
             din = dict(g.asdict(), data=(all_[:-k] if k else all_).hex(), mic=(all_[-k:] if k else b"").hex())
         else:                     # packet object: data = payload, mic empty (stack-built) or an old MIC still in place ("built-mic")
-            g = Fr(f.mgr, f.low, f.pre, f.res, f.kt, f.lvl, f.fc, f.src, f.kseq, b"", b"")
+            g = Fr(f.mgr, f.low, f.pre, f.res, f.kt, f.lvl, f.fc, f.src, f.kseq, b"", b"", f.ext)
             oldmic = rb(rng, M) if conv == "built-mic" else b""
             frame, setf, via = g.frame().hex(), {"data": f.payload.hex(), "mic": oldmic.hex()}, "obj"
             din = dict(g.asdict(), data=f.payload.hex(), mic=oldmic.hex())
@@ -186,19 +189,28 @@ def gen_roundtrip_cases(ctx):
         if dec_via:
             steps.append({"op": "dec", "key": key.hex(), "inp": inp, "via": dec_via, "reuse": rng.random() < 0.3})
         cases.append({"mgr": f.mgr, "frame": frame, "set": setf, "steps": steps,
-                      "meta": {"tag": tag, "conv": conv, "lvl": f.lvl, "plen": len(f.payload), "pkind": f.pkind,
+                      "meta": {"tag": tag, "conv": conv, "lvl": f.lvl, "ext": f.ext, "plen": len(f.payload), "pkind": f.pkind,
                                "payload": f.payload.hex(), "din": din, "low": len(f.low), "key": key.hex(), "inp": inp}})
 
-    # corpus / test-suite vectors first: the captured frames, re-encrypted from their decrypted form
+    # corpus first: witnesses of known findings (replayed on the implementation on every run) ...
+    cdir = os.path.join(C.VERIF, "corpus", PID)
+    for fn in sorted(os.listdir(cdir)) if os.path.isdir(cdir) else []:
+        w = json.load(open(os.path.join(cdir, fn)))
+        if "crypt" in w:
+            c = w["crypt"]
+            cases.append({"mgr": c["mgr"], "frame": c["frame"], "set": c.get("set"), "steps": c["steps"],
+                          "meta": {"tag": "corpus:" + fn, "conv": "bytes", "lvl": c["lvl"], "ext": c["ext"], "plen": c["plen"], "pkind": "corpus",
+                                   "payload": None, "din": None, "low": c["low"], "key": c["steps"][0]["key"], "inp": c["steps"][0].get("inp")}})
+    # ... then the test-suite vectors: the captured frames, re-encrypted from their decrypted form
     for mgr, key, inp, ct, pt in TEST_VECTORS:
         cases.append({"mgr": mgr, "frame": pt, "set": None,
                       "steps": [{"op": "enc", "key": key, "inp": inp, "via": "bytes"}, {"op": "dec", "key": key, "inp": inp, "via": "bytes"}],
-                      "meta": {"tag": "test-vector", "conv": "bytes", "lvl": 0, "plen": -1, "pkind": "captured", "expect_frame": ct,
+                      "meta": {"tag": "test-vector", "conv": "bytes", "lvl": 0, "ext": 1, "plen": -1, "pkind": "captured", "expect_frame": ct,
                                "din": None, "low": 9 if mgr == "nwk" else 17, "key": key, "inp": inp, "payload": None}})
         # ... and the captured (encrypted) frame itself must be accepted and give the expected bytes
         cases.append({"mgr": mgr, "frame": ct, "set": None,
                       "steps": [{"op": "dec", "key": key, "inp": inp, "via": "bytes"}],
-                      "meta": {"tag": "test-vector-dec", "conv": "bytes", "lvl": 0, "plen": -1, "pkind": "captured", "expect_frame": pt,
+                      "meta": {"tag": "test-vector-dec", "conv": "bytes", "lvl": 0, "ext": 1, "plen": -1, "pkind": "captured", "expect_frame": pt,
                                "din": None, "low": 9 if mgr == "nwk" else 17, "key": key, "inp": inp, "payload": None}})
     # the witnesses of the repaired defect (DESIGN §3 row 14): test frame 1, explicit levels, short colliding payloads
     hdr = bytes.fromhex("618864472400008a5c480200008a5c1e5d28e1000000013ce801008d150001")
@@ -219,16 +231,22 @@ def gen_roundtrip_cases(ctx):
         add(f, key, inp, conv, rng.choice(["bytes", "bytes", "obj"]), "random")
     # every payload length 0..80 at each level (contents colliding with the header half of the time)
     lens = range(0, 81) if ctx.thorough else list(range(0, 9)) + [15, 16, 17, 31, 32, 33, 47, 48, 49, 64, 79, 80]
-    for lvl in (0, 5, 6, 7):
-        for ln in lens:
+    for lvl in (0, 5, 6, 7, 1, 2, 3):
+        for ln in (lens if lvl in (0, 5, 6, 7) or ctx.thorough else [0, 1, 2, 3, 4, 5, 8, 15, 16, 17, 33, 80]):
             f = gen_secured(rng, "nwk" if ln % 2 else "aps", lvl=lvl, n=ln, pkind=rng.choice(["random", "hdrsub", "zeros"]))
             add(f, rb(rng, 16), aps_input_for(rng, f.kt) if f.mgr == "aps" else None,
                 "bytes" if lvl == 0 or ln % 3 else "built", "bytes", "length-sweep")
-    # levels outside the property (1-4): modelled literally, a few cases for the correspondence
-    for lvl in (1, 2, 3, 4):
-        for ln in (0, 1, 18):
-            f = gen_secured(rng, "nwk", lvl=lvl, n=ln, pkind="random")
-            add(f, rb(rng, 16), None, "bytes", "bytes", "other-level")
+    # level 4 (encryption only): the code raises ValueError (AES.new(mac_len=0)); modelled, compared, never accepted
+    for ln in (0, 1, 18, 40):
+        for mgr in ("nwk", "aps"):
+            f = gen_secured(rng, mgr, lvl=4, n=ln, pkind="random")
+            add(f, rb(rng, 16), aps_input_for(rng, f.kt) if mgr == "aps" else None, rng.choice(["bytes", "built"]), "bytes", "level4")
+    # frames WITHOUT the extended-nonce flag (known finding: the nonce takes payload bytes as the source)
+    for i in range(60 if ctx.thorough else 16):
+        mgr = "aps" if i % 2 else "nwk"
+        f = gen_secured(rng, mgr, lvl=[0, 5, 6, 7, 1, 2, 3, 5][i % 8], n=[0, 1, 2, 3, 6, 7, 8, 9, 20, 40][i % 10], ext=0)
+        add(f, rb(rng, 16), aps_input_for(rng, f.kt) if mgr == "aps" else None,
+            "bytes" if f.lvl == 0 or i % 3 else "built", "bytes", "no-ext")
     return cases
 
 
@@ -279,7 +297,7 @@ def gen_history_plans(ctx):
                 c2 = c
             c2 = min(c2, 0xFFFFFFFF)
             counters[(s, ki)] = max(c, c2)
-            events.append({"sender": s, "key": ki, "fc": c2, "lvl": rng.choice([0, 5, 5, 5, 6, 7]),
+            events.append({"sender": s, "key": ki, "fc": c2, "lvl": rng.choice([0, 5, 5, 5, 6, 7, 1, 2, 3]),
                            "ft": rng.choice([0, 0, 1, 1, 2] if rng.random() < 0.3 else [0, 1])})
         if base >= 0xFFFFFFF0:
             events.append({"sender": 0, "key": 0, "fc": 0xFFFFFFFF, "lvl": 5, "ft": 0})
@@ -326,8 +344,6 @@ def plan_schedule(rng, plan, enc_frames):
         elif r < 0.6:
             b = bytearray(bytes.fromhex(enc_frames[i]))
             k = rng.randrange(17 * 8, len(b) * 8)     # security header, payload or MIC (MAC 9 + NWK 8 header bytes before)
-            if k == 17 * 8 + 5:                       # the extended-nonce bit would leave the model
-                k += 1
             b[k // 8] ^= 1 << (k % 8)
             sched.append((bytes(b).hex(), "tampered", i))
         elif r < 0.7:
@@ -341,6 +357,114 @@ def plan_schedule(rng, plan, enc_frames):
         b[17] = (b[17] & 0xF8) | 4
         sched.insert(rng.randrange(len(sched) + 1), (bytes(b).hex(), "level4", 0))
     return sched
+
+
+# ---------------------------------------------------------------------------
+# APS receive histories (EXTENSION: APSManager.decrypt / on_nlde_data)
+# ---------------------------------------------------------------------------
+CANON_INPUT = {0: None, 2: 0, 3: 2}
+
+
+def gen_aps_plans(ctx):
+    rng, plans = ctx.rng, []
+    for hi in range(40 if ctx.thorough else 10):
+        senders = [rb(rng, 8) for _ in range(2)]
+        stranger = rb(rng, 8)
+        amap = [[senders[0].hex(), 1], [senders[1].hex(), 2]] if hi % 4 else [[senders[0].hex(), 1]]
+        k1, k2, kpre, krogue = rb(rng, 16), rb(rng, 16), rb(rng, 16), rb(rng, 16)
+        kps = [[None, kpre.hex()], [1, k1.hex()]] + ([[2, k2.hex()]] if hi % 3 else []) + ([[1, rb(rng, 16).hex()]] if hi % 2 else [])
+        if hi % 5 == 4:
+            kps = [kps[1], kps[0]] + kps[2:]
+        events = []
+        for _ in range(rng.randrange(4, 9)):
+            who = rng.choice([0, 0, 1, 2])
+            src = (senders + [stranger])[who]
+            key = rng.choice({0: [k1, k1, kpre], 1: [k2, kpre], 2: [kpre, kpre, k1]}[who] + [krogue])
+            kt = rng.choice([0, 2, 2, 3, 3, 1])
+            inp = CANON_INPUT.get(kt, None)
+            if rng.random() < 0.15:
+                inp = rng.choice([None, 0, 2, 1])
+            events.append({"src": src, "key": key, "kt": kt, "inp": inp, "lvl": rng.choice([0, 5, 5, 6, 7, 1, 2, 3, 4] if rng.random() < 0.3 else [0, 5]),
+                           "ext": 0 if rng.random() < 0.1 else 1, "cmd": rng.random() < 0.5})
+        plans.append({"map": amap, "kps": kps, "events": events})
+    return plans
+
+
+def aps_plan_enc_cases(rng, plan):
+    out = []
+    for ev in plan["events"]:
+        f = gen_secured(rng, "aps", lvl=ev["lvl"], kt=ev["kt"], src=ev["src"], n=rng.choice([0, 1, 3, 9, 30]), rich=False, ext=ev["ext"])
+        f.pre = aps_hdr(rng, "command" if ev["cmd"] else "data")
+        M = M_OF[f.lvl]
+        if f.lvl == 0:
+            g = Fr("aps", f.low, f.pre, 0, f.kt, 0, f.fc, f.src, f.kseq, f.payload + rb(rng, M), b"", f.ext)
+            out.append({"mgr": "aps", "frame": g.frame().hex(), "set": None,
+                        "steps": [{"op": "enc", "key": ev["key"].hex(), "inp": ev["inp"], "via": "bytes"}]})
+        else:
+            g = Fr("aps", f.low, f.pre, 0, f.kt, f.lvl, f.fc, f.src, f.kseq, b"", b"", f.ext)
+            out.append({"mgr": "aps", "frame": g.frame().hex(), "set": {"data": f.payload.hex(), "mic": ""},
+                        "steps": [{"op": "enc", "key": ev["key"].hex(), "inp": ev["inp"], "via": "obj"}]})
+        ev["low"] = len(f.low)
+    return out
+
+
+def aps_schedule(rng, plan, encs):
+    sched = []
+    for i, fh in enumerate(encs):
+        if fh is None:
+            continue
+        sched.append((fh, "genuine", i))
+        r = rng.random()
+        if r < 0.4:
+            sched.append((fh, "replay", i))
+        elif r < 0.6:
+            b = bytearray(bytes.fromhex(fh))
+            low = plan["events"][i]["low"]
+            k = rng.randrange(low * 8, len(b) * 8)
+            b[k // 8] ^= 1 << (k % 8)
+            sched.append((bytes(b).hex(), "tampered", i))
+        elif r < 0.75:
+            low = mac_hdr(rng) + nwk_hdr(rng, 0, False, False)
+            kind = rng.choice(["data", "command", "ack"])
+            hdr = {"data": bytes([0x00]) + rb(rng, 7), "command": bytes([0x01]) + rb(rng, 1), "ack": bytes([0x02]) + rb(rng, 7)}[kind]
+            sched.append(((low + hdr + rb(rng, rng.randrange(1, 9))).hex(), "plain", None))
+    if rng.random() < 0.5:
+        rng.shuffle(sched)
+    return sched
+
+
+def aps_candidates(plan, d):
+    """APSKeyPairSet.select as a specification of which keys may authenticate the sender"""
+    short = None
+    if d.get("ext") == 1:
+        for a, sh in plan["map"]:
+            if a == d["src"]:
+                short = sh
+    match = [k for a, k in plan["kps"] if a == short]
+    return match if match else [k for a, k in plan["kps"] if a is None]
+
+
+def coq_aps_history(plan, steps):
+    st = "(mkAps %s %s)" % (clist(["(%s, %d)" % (cbytes(bytes.fromhex(a)), sh) for a, sh in plan["map"]]),
+                            clist(["(mkKp %s %s)" % ("None" if a is None else "(Some %d)" % a, cbytes(bytes.fromhex(k))) for a, k in plan["kps"]]))
+    items = []
+    for r in steps:
+        d = r["in"]
+        if d.get("nosec"):
+            raw = bytes.fromhex(r["in_raw"])
+            p = "(ApsPlain %d %s)" % (raw[0] & 3, cbytes(raw))
+        else:
+            p = "(ApsSecured %s)" % coq_frame(d)
+        if "exc" in r:
+            o = "(ObsARaised %s)" % cstr(r["exc"])
+        elif not r["up"]:
+            o = "ObsANothing"
+        else:
+            u = r["up"][0]
+            sv = 0 if u["svc"] == "data" else 1
+            o = "(ObsAUpSecured %d %s)" % (sv, coq_frame(u["dis"])) if u["sec"] else "(ObsAUpPlain %d %s)" % (sv, cbytes(bytes.fromhex(u["raw"])))
+        items.append("(%s, %s)" % (p, o))
+    return "(%s, %s)" % (st, clist(items))
 
 
 # ---------------------------------------------------------------------------
@@ -358,7 +482,7 @@ def coq_crypt_case(step, is_enc):
 
 
 def coq_table(tables):
-    return clist(["(%d, %s)" % (seq, clist(["(%s, %d)" % (cbytes(bytes.fromhex(a)), c) for a, c in t])) for seq, t in tables])
+    return clist(["(%d, %s)" % (seq, clist(["(%s, %d)" % (cbytes(bytes.fromhex(a or "")), c) for a, c in t])) for seq, t in tables])
 
 
 def coq_history(cfg, steps):
@@ -402,7 +526,7 @@ def run(ctx):
         "scapy build/dissect of ZigbeeNWK / ZigbeeAppDataPayload / ZigbeeSecurityHeader (modelled: field layout of the security header, post_dissect mic split, frametype bits); every case re-checks raw(base layer) against the model's serialisation",
         "tag collisions: acceptance of a modified frame or under another key is equivalent to equality of CCM tags (not excluded for an arbitrary E); formatting injectivity is proved, MAC unforgeability is not a theorem",
     ]
-    ctx.assumptions = ["security header carries the 8-byte source (extended_nonce = 1); frames without it are outside the model",
+    ctx.assumptions = ["inverse / injectivity theorems: security header carries the 8-byte source (extended_nonce = 1); frames without it are modelled, their round trip is refuted (known finding)",
                        "key is 16 bytes (AES-128), frame counter < 2^32, lengths < 65536 for the injectivity statements",
                        "freshness theorems assume nwkAllFresh = True (the NWKIB default is False)"]
     proofs_ok, detail = ctx.check_proofs(lib_targets=["theories/Lib/Bytes.vo", "theories/Lib/Xor.vo", "theories/Lib/Aes.vo", "theories/Lib/Ccm.vo"])
@@ -418,6 +542,12 @@ def run(ctx):
         pc = plan_enc_cases(rng, p)
         p["first"], p["n"] = len(plan_cases), len(pc)
         plan_cases += pc
+    aps_plans = gen_aps_plans(ctx)
+    aps_plan_cases = []
+    for p in aps_plans:
+        pc = aps_plan_enc_cases(rng, p)
+        p["first"], p["n"] = len(aps_plan_cases), len(pc)
+        aps_plan_cases += pc
     hash_cases = []
     for n in list(range(0, 40)) + [47, 48, 49, 63, 64, 65]:
         hash_cases.append(["hash", rb(rng, n).hex()])
@@ -432,7 +562,7 @@ def run(ctx):
             aps_data_cases.append(dict(w["aps_data"], file=fn))
     for n in (0, 4, 5, 40):
         aps_data_cases.append({"asdu": rb(rng, n).hex(), "secured": True})
-    req1 = {"crypt": [{k: c[k] for k in ("mgr", "frame", "set", "steps")} for c in rt_cases + plan_cases], "hash": hash_cases,
+    req1 = {"crypt": [{k: c[k] for k in ("mgr", "frame", "set", "steps")} for c in rt_cases + plan_cases + aps_plan_cases], "hash": hash_cases,
             "aps_data": aps_data_cases}
     r1 = C.run_impl("C17.py", req1)
     aps_terms = []
@@ -447,11 +577,13 @@ def run(ctx):
         aps_terms.append("(%s, 0, [], %s, %s)" % (cbytes(bytes.fromhex("814286865dc1c8b2c8cbc52e5d65d1b8")), cbytes(bytes.fromhex(c["asdu"])),
                                                    "Some %s" % cstr(r["exc"]) if "exc" in r else "None"))
     res_rt = r1["crypt"][:len(rt_cases)]
-    res_plan = r1["crypt"][len(rt_cases):]
+    res_plan = r1["crypt"][len(rt_cases):len(rt_cases) + len(plan_cases)]
+    res_aps_plan = r1["crypt"][len(rt_cases) + len(plan_cases):]
     ctx.log("phase 1: %d round-trip cases, %d history frames, %d hash cases" % (len(rt_cases), len(plan_cases), len(hash_cases)))
 
     crypt_terms, crypt_src = [], []     # Coq cases + where they came from
-    dist = {"level": {}, "mgr": {}, "conv": {}, "plen": {}, "pkind": {}, "outcome": {}, "tamper_region": {}, "model_branch": {}}
+    dist = {"level": {}, "mgr": {}, "conv": {}, "plen": {}, "pkind": {}, "outcome": {}, "tamper_region": {}, "model_branch": {},
+            "nonce_convention": {}, "level_x_nonce": {}}
     def bump(k, v, n=1):
         dist[k][str(v)] = dist[k].get(str(v), 0) + n
     def branch(step, is_enc):
@@ -478,6 +610,8 @@ def run(ctx):
         m = c["meta"]
         case = {"op": "roundtrip", "mgr": c["mgr"], "frame": c["frame"], "set": c["set"], "steps": c["steps"], "tag": m["tag"]}
         bump("level", m["lvl"]); bump("mgr", c["mgr"]); bump("conv", m["conv"]); bump("pkind", m["pkind"])
+        bump("nonce_convention", "extended-nonce" if m["ext"] else "no-extended-nonce")
+        bump("level_x_nonce", "%d/%s" % (m["lvl"], "ext" if m["ext"] else "noext"))
         bump("plen", "0" if m["plen"] == 0 else "1-4" if 0 < m["plen"] <= 4 else "5-16" if m["plen"] <= 16 else ">16" if m["plen"] > 16 else "captured")
         add_terms(steps, [s["op"] for s in c["steps"]], ("rt", i))
         if c["mgr"] == "aps" and steps and "key_used" in steps[0]:
@@ -492,45 +626,53 @@ def run(ctx):
         if m["din"] is not None and "in" in s0 and not same_dis(s0["in"], m["din"]):
             ctx.notes.append("dissection disagreement (generator vs scapy) on case %d" % i)
             bump("outcome", "dissection-disagreement")
-        in_scope = m["lvl"] in (0, 5, 6, 7)
+        in_scope = m["lvl"] in IN_SCOPE
+        # class of the known finding: the security header has no extended-nonce source
+        kf = KEY_NOEXT if not m["ext"] else None
         if "exc" in s0:
-            bump("outcome", "enc-raise:" + s0["exc"])
+            bump("outcome", "enc-raise:" + s0["exc"] + ("" if m["ext"] else ":noext"))
             if in_scope:
-                nviol += ctx.violation("encrypt raised " + s0["exc"], case, observed=s0)
+                nviol += ctx.violation("encrypt raised " + s0["exc"], case, key=kf, observed=s0)
             continue
+        if m["lvl"] in (1, 2, 3) and s0["out"]["data"] != expected_plaintext(s0["in"]).hex():
+            nviol += ctx.violation("integrity-only level: the payload does not stay in clear", case,
+                                   expected=expected_plaintext(s0["in"]).hex(), observed=s0["out"]["data"])
         if m["tag"] == "test-vector" and s0["out_frame"] != m["expect_frame"]:
             nviol += ctx.violation("re-encryption of a captured frame differs from the capture", case, expected=m["expect_frame"], observed=s0["out_frame"])
         if m["plen"] < 0:
             m["plen"] = len(expected_plaintext(s0["in"]))
-        if in_scope:
+        if in_scope and m["ext"]:
             enc_ok.append((i, s0["out_frame"], m["low"] if m["low"] is not None else None, m["key"], m["inp"], m))
         if len(steps) < 2:
             continue
         s1 = steps[1]
         if not in_scope:
-            bump("outcome", "other-level:" + ("raise" if "exc" in s1 else str(s1["status"])))
+            bump("outcome", "level4:" + ("raise" if "exc" in s1 else str(s1["status"])))
             continue
         exp = expected_plaintext(s0["in"]).hex()
         if "exc" in s1 or s1["status"] is not True or s1["out"]["data"] != exp:
-            bump("outcome", "roundtrip-FAIL")
-            nviol += ctx.violation("decrypt(encrypt(frame)) under the same key is not accepted with the original payload", case,
+            bump("outcome", "roundtrip-FAIL" + ("" if m["ext"] else ":noext"))
+            nviol += ctx.violation("decrypt(encrypt(frame)) under the same key is not accepted with the original payload", case, key=kf,
                                    expected={"status": True, "data": exp},
                                    observed={"exc": s1.get("exc"), "status": s1.get("status"), "data": (s1.get("out") or {}).get("data")})
         else:
-            bump("outcome", "roundtrip-ok")
+            bump("outcome", "roundtrip-ok" + ("" if m["ext"] else ":noext"))
             if s1["out"]["pre"] != s0["in"]["pre"] or s1["out"]["lvl"] != s0["in"]["lvl"] or s1["out"]["fc"] != s0["in"]["fc"] or s1["out"]["src"] != s0["in"]["src"]:
                 nviol += ctx.violation("round trip changed the header", case, expected=s0["in"], observed=s1["out"])
             nontrivial.append(["rt", c["frame"], c["set"], m["key"], m["inp"]])
 
     # ---- phase 2: tampered / wrong-key decrypts and NWK histories -------------------------
     tam_cases, tam_meta = [], []
-    sweep_budget = 60 if ctx.thorough else 6
+    sweep_budget = 70 if ctx.thorough else 7
     pool = [e for e in enc_ok if e[2] is not None]
     rng.shuffle(pool)
     # full single-bit sweeps on a few frames (short ones first so that every header bit is covered), sampled flips on the rest
     pool.sort(key=lambda e: (e[5]["plen"] > 6,))
     seen_combo, full_set = set(), set()
-    for e in pool:           # one short frame per (level, manager) first, then whatever comes
+    for e in pool:           # one short frame per level first, then per (level, manager), then whatever comes
+        if e[5]["lvl"] not in seen_combo and len(full_set) < sweep_budget:
+            seen_combo.add(e[5]["lvl"]); full_set.add(e[0])
+    for e in pool:
         combo = (e[5]["lvl"], rt_cases[e[0]]["mgr"])
         if combo not in seen_combo and len(full_set) < sweep_budget:
             seen_combo.add(combo); full_set.add(e[0])
@@ -573,7 +715,16 @@ def run(ctx):
         sched = plan_schedule(rng, p, encs)
         hist_reqs.append(dict(p["cfg"], frames=[f for f, _k, _i in sched], direct=(len(hist_reqs) % 4 == 3)))
         hist_sched.append((p, sched))
-    req2 = {"crypt": tam_cases, "nwk": hist_reqs}
+    aps_reqs, aps_sched = [], []
+    for p in aps_plans:
+        encs = []
+        for j, st in enumerate(res_aps_plan[p["first"]:p["first"] + p["n"]]):
+            add_terms(st, ["enc"], ("aps-plan", p["first"] + j))
+            encs.append(None if "exc" in st[0] else st[0]["out_frame"])     # level 4 / short nonce: encrypt raises, nothing to send
+        sched = aps_schedule(rng, p, encs)
+        aps_reqs.append({"map": p["map"], "kps": p["kps"], "frames": [f for f, _k, _i in sched]})
+        aps_sched.append((p, sched))
+    req2 = {"crypt": tam_cases, "nwk": hist_reqs, "aps": aps_reqs}
     r2 = C.run_impl("C17.py", req2)
     ctx.log("phase 2: %d tampered/wrong-key decrypts, %d NWK histories (%d frames)" % (len(tam_cases), len(hist_reqs), sum(len(h["frames"]) for h in hist_reqs)))
 
@@ -659,8 +810,58 @@ def run(ctx):
             nontrivial.append(["hist", cfg, hreq["frames"]])
     dist["nwk_history_events"] = hdist
 
+    # oracle + observation: APS receive histories (EXTENSION)
+    aps_terms_h = []
+    adist = {"genuine-delivered": 0, "replay-delivered (no freshness at this layer: observation)": 0, "dropped-not-authentic": 0,
+             "dropped-key-not-candidate": 0, "raised": 0, "plain-up": 0, "plain-nothing": 0, "tampered-dropped": 0, "no-ext-dropped": 0}
+    for (p, sched), areq, steps in zip(aps_sched, aps_reqs, r2["aps"]):
+        modelable = True
+        seen = set()
+        for k, ((fhex, kind, ei), r) in enumerate(zip(sched, steps)):
+            case = {"op": "aps-history", "map": p["map"], "kps": p["kps"], "frames": areq["frames"], "upto": k, "kind": kind}
+            if r.get("skip"):
+                modelable = False
+                continue
+            d = r["in"]
+            if not d.get("nosec") and not in_model(d):
+                modelable = False
+            if "exc" in r:
+                adist["raised"] += 1
+                if r["up"]:
+                    nviol += ctx.violation("APS layer delivered a frame and raised", case, observed=r)
+                continue
+            if d.get("nosec"):
+                adist["plain-up" if r["up"] else "plain-nothing"] += 1
+                continue
+            ev = p["events"][ei]
+            cands = aps_candidates(p, d)
+            authentic = (kind in ("genuine", "replay") and ev["kt"] in CANON_INPUT and ev["inp"] == CANON_INPUT[ev["kt"]]
+                         and ev["key"].hex() in [k_ for _a, k_ in p["kps"]] and ev["lvl"] in IN_SCOPE)
+            if r["up"]:
+                u = r["up"][0]
+                if not authentic:
+                    nviol += ctx.violation("APS layer passed up a secured frame that is not authentic (%s)" % kind, case, expected="dropped", observed=u)
+                elif u.get("sec") and u["dis"]["data"] != expected_plaintext(res_aps_plan[p["first"] + ei][0]["in"]).hex():
+                    nviol += ctx.violation("APS layer delivered a payload different from the one that was encrypted", case, observed=u["dis"]["data"])
+                elif fhex in seen:
+                    adist["replay-delivered (no freshness at this layer: observation)"] += 1
+                else:
+                    adist["genuine-delivered"] += 1
+                seen.add(fhex)
+            else:
+                # liveness only for frames with the extended-nonce source (without it acceptance depends on the payload bytes: known finding)
+                if authentic and ev["ext"] == 1 and ev["key"].hex() in cands and (int(d["pre"][:2], 16) & 3) in (0, 1):
+                    nviol += ctx.violation("APS layer dropped an authentic frame secured with a key of the sender's key-pair set", case, expected="delivered", observed=r)
+                adist["tampered-dropped" if kind == "tampered" else "no-ext-dropped" if ev["ext"] == 0 else
+                      "dropped-key-not-candidate" if authentic else "dropped-not-authentic"] += 1
+        if modelable:
+            aps_terms_h.append(coq_aps_history(p, [r for r in steps if not r.get("skip")]))
+            nontrivial.append(["aps-hist", p["map"], p["kps"], areq["frames"]])
+    dist["aps_history_events"] = adist
+
     # ---- correspondence inside Coq ------------------------------------------------------------
-    check_fn = "check_crypt_old" if os.environ.get("C17_MODEL") == "old" else "check_crypt"   # old = generateAuth before the repair (seeded/C17/revert-*)
+    # C17_MODEL=old: the original code (generateAuth by bytes.replace); v1: after the first repair, before the repair of levels 1-3
+    check_fn = {"old": "check_crypt_old", "v1": "check_crypt_v1"}.get(os.environ.get("C17_MODEL"), "check_crypt")
     bad_c, logs_c = C.run_cases(PID, "crypt", PRE, "bool * bytes * frame * bytes * obs", crypt_terms, check_fn, shard=250, max_chars=300000)
     hk_terms = ["(%s, %s)" % (cbytes(bytes.fromhex(c[1])), cbytes(bytes.fromhex(o))) for c, o in zip(hash_cases, r1["hash"]) if c[0] == "hash" and isinstance(o, str)]
     hkk_terms = ["(%s, %d, %s)" % (cbytes(bytes.fromhex(c[1])), c[2], cbytes(bytes.fromhex(o))) for c, o in zip(hash_cases, r1["hash"]) if c[0] == "hash_key" and isinstance(o, str)]
@@ -672,15 +873,18 @@ def run(ctx):
             bad_k.append(-1)
     bad_a, logs_a = C.run_cases(PID, "apsdata", PRE, "bytes * N * bytes * bytes * option string", aps_terms, "check_aps_data")
     bad_k += ["aps-data:%d" % i for i in bad_a]
+    bad_ah, logs_ah = C.run_cases(PID, "apshist", PRE, "aps * list (nsdu * obs_aps)", aps_terms_h, "check_aps", shard=8)
+    bad_k += ["aps-history:%d" % i for i in bad_ah]
     bad_n, logs_n = C.run_cases(PID, "nwk", PRE, "nwk * list (npdu * obs_up * list (N * list (bytes * N)))", hist_terms, "check_nwk", shard=8)
     ctx.notes += logs_c[:2] + logs_h[:1] + logs_k[:1] + logs_n[:2]
-    ctx.log("correspondence: crypt %d cases %d bad; hash %d/%d bad %d/%d; nwk histories %d bad %d"
-            % (len(crypt_terms), len(bad_c), len(hk_terms), len(hkk_terms), len(bad_h), len(bad_k), len(hist_terms), len(bad_n)))
+    ctx.log("correspondence: crypt %d cases %d bad; hash %d/%d bad %d/%d; nwk histories %d bad %d; aps histories %d bad %d"
+            % (len(crypt_terms), len(bad_c), len(hk_terms), len(hkk_terms), len(bad_h), len(bad_k), len(hist_terms), len(bad_n), len(aps_terms_h), len(bad_ah)))
 
     # ---- evidence -------------------------------------------------------------------------------
-    n_eval = len(rt_cases) + len(plan_cases) + len(tam_cases) + sum(len(h["frames"]) for h in hist_reqs) + len(hash_cases)
+    n_eval = (len(rt_cases) + len(plan_cases) + len(aps_plan_cases) + len(tam_cases) + sum(len(h["frames"]) for h in hist_reqs)
+              + sum(len(h["frames"]) for h in aps_reqs) + len(hash_cases))
     ctx.cov["evaluations"] = n_eval
-    ctx.cov["traces_validated_against_impl"] = len(crypt_terms) + len(hk_terms) + len(hkk_terms) + len(hist_terms)
+    ctx.cov["traces_validated_against_impl"] = len(crypt_terms) + len(hk_terms) + len(hkk_terms) + len(hist_terms) + len(aps_terms_h)
     ctx.cov["distinct_nontrivial"] = C.distinct_count(nontrivial)
     ctx.cov["rule"] = ("round-trip cases: NWK data/command and APS data/command/key-transport/key-load frames, levels 0 (on-air) and 5..7, both dissection "
                        "conventions (dissected bytes / stack-built packet), payload lengths 0..80 with contents random or taken from the header; tamper cases: every "
@@ -689,7 +893,9 @@ def run(ctx):
                        "unsecured and level-4 frames, counter wrap. Non-trivial = accepted round trip, rejected tamper, or history; distinct by content hash")
     uncovered = [b for b in ("enc:patched-mic-absent:kseq", "enc:level5:kseq", "enc:level6:kseq", "enc:level7:kseq", "dec:patched-mic-absent:accept",
                              "dec:patched-mic-present:accept", "dec:level5:accept", "dec:level6:accept", "dec:level7:accept", "dec:level5:reject",
-                             "dec:patched-mic-absent:reject", "raise:ValueError", "enc:patched-mic-present:kseq") if b not in dist["model_branch"]]
+                             "dec:patched-mic-absent:reject", "raise:ValueError", "enc:patched-mic-present:kseq",
+                             "enc:level1:kseq", "enc:level2:kseq", "enc:level3:kseq", "dec:level1:accept", "dec:level2:accept", "dec:level3:accept",
+                             "dec:level1:reject", "dec:level2:reject", "dec:level3:reject") if b not in dist["model_branch"]]
     dist["uncovered_branches"] = uncovered
     ctx.cov["distribution"] = dist
     ctx.cov["uncovered_branches"] = uncovered
@@ -702,7 +908,8 @@ def run(ctx):
                               C.source_tie("whad/zigbee/stack/nwk/__init__.py", 1093, 1203),
                               C.source_tie("whad/zigbee/stack/nwk/security.py", 1, 36)]
     ctx.cov["correspondence"] = {"crypt_cases": len(crypt_terms), "crypt_bad": len(bad_c), "hash_cases": len(hk_terms) + len(hkk_terms),
-                                 "hash_bad": len(bad_h) + len(bad_k), "nwk_histories": len(hist_terms), "nwk_bad": len(bad_n)}
+                                 "hash_bad": len(bad_h) + len(bad_k), "nwk_histories": len(hist_terms), "nwk_bad": len(bad_n),
+                                 "aps_histories": len(aps_terms_h), "aps_bad": len(bad_ah)}
 
     # ---- verdict ------------------------------------------------------------------------------------
     if bad_c or bad_h or bad_k or bad_n or not proofs_ok:
@@ -738,6 +945,10 @@ def replay(payload):
     elif case.get("op") == "aps-data-request":
         r = C.run_impl("C17.py", {"aps_data": [case["aps_data"]]})
         print("implementation now:", r["aps_data"][0])
+    elif case.get("op") == "aps-history":
+        r = C.run_impl("C17.py", {"aps": [{"map": case["map"], "kps": case["kps"], "frames": case["frames"]}]})
+        for k, st in enumerate(r["aps"][0]):
+            print("frame %d: up=%s exc=%s" % (k, [u["svc"] for u in st.get("up", [])], st.get("exc")))
     elif case.get("op") == "nwk-history":
         r = C.run_impl("C17.py", {"nwk": [dict(case["cfg"], frames=case["frames"], direct=case.get("direct", False))]})
         for k, st in enumerate(r["nwk"][0]):
